@@ -582,6 +582,22 @@ func c02IncDec(w *World, r *Report) {
 		return isCallTo0(v, "concurrentStrategy).checkReqStatus") && Derives(v, func(x ssa.Value) bool { return isConstVal(x, w.constOf(pkgQuota, "reqNotFound")) })
 	})
 	r.Check(okNew, "R9", "Inc/only-new-requests", posOf(sadd[0]), "a request id is added to the set only when it has no status yet (idempotent Inc)")
+	// the parent is charged only for a request this quota admitted itself (a refused request
+	// must not take a parent slot: nothing would ever release it)
+	pincs := CallsIn(inc, false, "QuotaResourceI).Inc")
+	nP := 0
+	for _, c := range pincs {
+		if !strings.Contains(Path(c.Common().Value), ".parent") && !(len(c.Common().Args) > 0 && strings.Contains(Path(c.Common().Args[0]), ".parent")) {
+			continue
+		}
+		nP++
+		cs := CondsOf(c.Block())
+		r.Check(condsHave(cs, true, isIncd) && domInstr(sadd[0], c), "R9", "Inc/parent-charged-only-after-own-admission", posOf(c),
+			"parent.Inc is reached only on the increased edge of this quota's own SAdd=%v", condsHave(cs, true, isIncd))
+	}
+	if nP != 1 {
+		r.Undec("R9", "Inc/parent-inc", inc.Pos(), "expected one parent Inc call, found %d", nP)
+	}
 	for _, alt := range ReturnAlts(inc, 0) {
 		if !condsHave(alt.Conds, true, isIncd) {
 			continue
